@@ -131,6 +131,18 @@ def random_problem(rng, n, steps, dt=None, local=True, phases=True, scale=1.0, x
         for k in rng.sample(range(1, steps), rng.randint(1, min(3, steps - 1))):
             omega[k, :] = 0.0
             delta[k, :] = 0.0
+    if steps >= 3 and rng.random() < 0.3:
+        # plateaus: consecutive steps with bit-identical rows (constant pulses), optionally with only the detuning or
+        # only the amplitude still varying (the sweep part of an adiabatic protocol)
+        mode = rng.choice(["const", "delta_ramp", "omega_ramp"])
+        k0 = rng.randrange(0, steps - 1)
+        k1 = rng.randrange(k0 + 2, steps + 1)
+        for k in range(k0 + 1, k1):
+            phi[k] = phi[k0]
+            if mode != "omega_ramp":
+                omega[k] = omega[k0]
+            if mode != "delta_ramp":
+                delta[k] = delta[k0]
     pos = np.array([[rng.uniform(0, 4), rng.uniform(0, 4)] for _ in range(n)])
     for _ in range(200):  # keep atoms apart
         d = np.linalg.norm(pos[:, None] - pos[None], axis=-1) + np.eye(n) * 10
